@@ -47,7 +47,7 @@ CLAIMED = {
 
 NOT_APPLICABLE = {
     "C14": "LIST is built from std formatting: Token's Display impl (write!/Formatter machinery) and the DATA renderer (f64::to_string, format!) are out of reach for CBMC here -- the spelling round trip of even 5 payload-free tokens through the real Display and tokenizer exceeded 8 GB (kept as thorough-tier harnesses c14_spelling_*, not claimed). What can be decided of the reload path -- the DATA item parser's insensitivity to blanks at item boundaries and the tokenizer's matcher units -- is claimed under C12/C13; that is not enough to claim the fixed-point property itself. The DATA defect D11 that C14 names was found and fixed under C12.",
-    "C15": "Process-level property (stdout/stderr of `abasic FILE` vs a piped session, clap/rustyline/ctrlc, the options -w/-t/--skip-check): I/O, FFI and argument parsing cannot be encoded for CBMC within reach; only the core clause (analyzer-loaded program == typed-in program) is exercised, as a side harness (c15_load_equals_typing, concrete text) that is reported under C04's evidence family but not claimed as deciding C15. The known CLI defect (file mode drops -w/-t) was found by reading, not by a check.",
+    "C15": "Process-level property (stdout/stderr of `abasic FILE` vs a piped session, clap/rustyline/ctrlc, the options -w/-t/--skip-check): I/O, FFI and argument parsing cannot be encoded for CBMC within reach; only the core clause (analyzer-loaded program == typed-in program) is exercised, by an unclaimed side harness (c15_load_equals_typing, concrete text; run with ./check C15) that does not decide C15. The known CLI defect (file mode drops -w/-t) was found by reading, not by a check.",
     "C20": "Language-server liveness over JSON-RPC/stdio with threads is process-level behaviour Kani does not handle. The position clause was attempted on the real get_semantic_tokens / analyze_source_file (harness/lsp/c20_positions.rs, concrete documents): from the abasic-lsp crate the core's private formatting impls cannot be stubbed, and the first document exceeded 12 GB, so no verdict is available and nothing is claimed. The analyzer crash the server depends on is covered (and fixed) under C05; the UTF-16 column defect (byte offsets used as columns) is known by reading only.",
 }
 
